@@ -226,10 +226,10 @@ impl Property for C13 {
     }
     fn cases(&self, cfg: &Cfg) -> u64 {
         // 64 tuple shapes + 21 vector lengths (x repetitions), offline raw framing
-        (64 + 21) * cfg.tier.pick(1, 20) + 1 + cfg.tier.pick(400, 40_000)
+        (64 + 21) * cfg.tier.pick(4, 20) + 1 + cfg.tier.pick(2_000, 40_000)
     }
     fn run_case(&self, cfg: &Cfg, i: u64, acc: &mut Acc) {
-        let reps = cfg.tier.pick(1, 20);
+        let reps = cfg.tier.pick(4, 20);
         let sess_cases = (64 + 21) * reps;
         if i < sess_cases {
             let k = i % 85;
